@@ -1,12 +1,12 @@
-// Suite histbytes (C11): the exact bytes of integer native histogram chunks.
+// Suite histbytes (C11): the exact bytes of native histogram chunks (integer and float).
 //
 // The chunk-appender emulation is the one of suite hist (`cut`=1 emulates the head: new empty
 // chunk, previous appender passed); here the observable is the encoded chunk, byte for byte.
 //
 //   capp <cut> <t> <hist>   -> same | new | recoded | err-…
-//   cbytes                  -> i:<hex of Bytes()>|f|…     every chunk, oldest first; `-` = no chunk
-//                              (integer chunk: all bytes incl. the 2-byte sample count and the
-//                              header byte; float chunk: just `f`)
+//   cbytes                  -> i:<hex of Bytes()>|f:<hex of Bytes()>|…   every chunk, oldest first; `-` = no chunk
+//                              (i = integer histogram chunk, f = float histogram chunk; all bytes
+//                              incl. the 2-byte sample count and the header byte)
 package main
 
 import (
@@ -84,7 +84,7 @@ func (e *chunkEnv) bytes() string {
 		if c.Encoding() == chunkenc.EncHistogram {
 			parts[i] = "i:" + hex.EncodeToString(c.Bytes())
 		} else {
-			parts[i] = "f"
+			parts[i] = "f:" + hex.EncodeToString(c.Bytes())
 		}
 	}
 	return strings.Join(parts, "|")
